@@ -362,49 +362,61 @@ def on_type_with_overridden_serialization(
 
 @register
 def on_dataclass(instance: Instance, ctx: Context) -> Optional[JSONSchema]:
-    # TODO: Self references might not work
     if is_dataclass(instance.origin_type):
-        jsonschema_config = instance.get_self_config().json_schema
-        schema = JSONObjectSchema(
-            title=instance.origin_type.__name__,
-            additionalProperties=jsonschema_config.get(
-                "additionalProperties", False
-            ),
-        )
-        properties: dict[str, JSONSchema] = {}
-        required = []
-        field_schema_overrides = jsonschema_config.get("properties", {})
-        for f_name, f_type, has_default, f_default in instance.fields():
-            override = field_schema_overrides.get(f_name)
-            f_instance = instance.derive(type=f_type, name=f_name)
-            if override:
-                f_schema = JSONSchema.from_dict(override)
-            else:
-                f_schema = get_schema(f_instance, ctx)
-            if f_instance.alias:
-                f_name = f_instance.alias
-            if f_default is not MISSING:
-                f_schema.default = f_default
-            description = f_instance.metadata.get("description")
-            if description:
-                f_schema.description = description
-
-            if not has_default:
-                required.append(f_name)
-
-            properties[f_name] = f_schema
-        if properties:
-            schema.properties = properties
-        if required:
-            schema.required = required
-        if ctx.all_refs:
+        ref_prefix = ctx.ref_prefix or ctx.dialect.definitions_root_pointer
+        reference = f"{ref_prefix}/{instance.origin_type.__name__}"
+        if instance.origin_type in ctx._in_progress:
+            # a self reference: the definition is stored when it's complete
+            ctx._self_referenced.add(instance.origin_type)
+            return JSONSchema(reference=reference)
+        ctx._in_progress.add(instance.origin_type)
+        try:
+            schema = _get_dataclass_schema(instance, ctx)
+        finally:
+            ctx._in_progress.discard(instance.origin_type)
+        if ctx.all_refs or instance.origin_type in ctx._self_referenced:
+            # a class that refers to itself can only be used by reference
             ctx.definitions[instance.origin_type.__name__] = schema
-            ref_prefix = ctx.ref_prefix or ctx.dialect.definitions_root_pointer
-            return JSONSchema(
-                reference=f"{ref_prefix}/{instance.origin_type.__name__}"
-            )
+            return JSONSchema(reference=reference)
         else:
             return schema
+
+
+def _get_dataclass_schema(instance: Instance, ctx: Context) -> JSONSchema:
+    jsonschema_config = instance.get_self_config().json_schema
+    schema = JSONObjectSchema(
+        title=instance.origin_type.__name__,
+        additionalProperties=jsonschema_config.get(
+            "additionalProperties", False
+        ),
+    )
+    properties: dict[str, JSONSchema] = {}
+    required = []
+    field_schema_overrides = jsonschema_config.get("properties", {})
+    for f_name, f_type, has_default, f_default in instance.fields():
+        override = field_schema_overrides.get(f_name)
+        f_instance = instance.derive(type=f_type, name=f_name)
+        if override:
+            f_schema = JSONSchema.from_dict(override)
+        else:
+            f_schema = get_schema(f_instance, ctx)
+        if f_instance.alias:
+            f_name = f_instance.alias
+        if f_default is not MISSING:
+            f_schema.default = f_default
+        description = f_instance.metadata.get("description")
+        if description:
+            f_schema.description = description
+
+        if not has_default:
+            required.append(f_name)
+
+        properties[f_name] = f_schema
+    if properties:
+        schema.properties = properties
+    if required:
+        schema.required = required
+    return schema
 
 
 @register
